@@ -52,11 +52,12 @@ type RegTest struct {
 }
 
 type PropFunc struct {
-	Func    string   `json:"func"`          // function key or prefix* pattern
-	Mode    string   `json:"mode"`          // contract | sweep | frame
-	Classes []string `json:"classes"`       // obligation classes that count for this property (empty: all)
-	NoInv   bool     `json:"no_invariants"` // do not assume the declared type invariants (C10: well-formedness is the question)
-	KeepInv bool     `json:"keep_invariants"` // assume all declared type invariants for this entry even if the property skips some
+	Func      string   `json:"func"`               // function key or prefix* pattern
+	Mode      string   `json:"mode"`               // contract | sweep | frame
+	Classes   []string `json:"classes"`            // obligation classes that count for this property (empty: all)
+	NoInv     bool     `json:"no_invariants"`      // do not assume the declared type invariants (C10: well-formedness is the question)
+	KeepInv   bool     `json:"keep_invariants"`    // assume all declared type invariants for this entry even if the property skips some
+	NoLoopInv bool     `json:"no_loop_invariants"` // do not use the declared loop invariants of this unit (they need a scope / quantified facts this mode does not have): neither assumed nor checked
 }
 
 type Finding struct {
@@ -265,11 +266,14 @@ func cmdCheck(args []string) {
 			if en.KeepInv {
 				skip = nil
 			}
-			u := e.verify(fn, VerifyOpts{SweepOnly: en.Mode == "sweep", Frame: en.Mode == "frame", NoInv: en.NoInv || spec.NoInv, SkipInv: skip})
+			u := e.verify(fn, VerifyOpts{SweepOnly: en.Mode == "sweep", Frame: en.Mode == "frame", NoInv: en.NoInv || spec.NoInv, SkipInv: skip, NoLoopInv: en.NoLoopInv})
 			r := &unitReport{u: u, entry: en}
 			var keep []*Obl
 			for _, o := range u.obls {
-				if classAllowed(en.Classes, o.Class) && !(len(spec.Exclude) > 0 && classAllowed(spec.Exclude, o.Class)) {
+				// loop invariants (declared and automatic) are assumed at every loop head: whatever else is counted for
+				// this unit rests on them, so their own obligations always count
+				invClass := o.Class == "inv-init" || o.Class == "inv-keep" || o.Class == "inv-auto"
+				if (invClass || classAllowed(en.Classes, o.Class)) && !(len(spec.Exclude) > 0 && classAllowed(spec.Exclude, o.Class)) {
 					keep = append(keep, o)
 				}
 			}
